@@ -43,6 +43,22 @@ spec fn index_signal(ix: EntryIndex) -> usize {
     match ix { EntryIndex::Entry { entry_index, signal_index } => signal_index, EntryIndex::Default { signal_index } => signal_index }
 }
 
+/// well-formed index lists for rows of `width` columns (established by with_signals, C11):
+/// indices in range, input indices point at input-capable signals of width <= 64, expected
+/// indices at signals of width <= 64
+spec fn wf_indices_of(signals: Seq<Signal>, inp: Seq<EntryIndex>, exp: Seq<EntryIndex>, width: int) -> bool {
+    &&& forall|k: int| 0 <= k < inp.len() ==> match #[trigger] inp[k] {
+            EntryIndex::Entry { entry_index, signal_index } => entry_index < width && signal_index < signals.len()
+                && sig_is_input(signals[signal_index as int]) && signals[signal_index as int].bits <= 64,
+            EntryIndex::Default { signal_index } => signal_index < signals.len() && sig_is_input(signals[signal_index as int]),
+        }
+    &&& forall|k: int| 0 <= k < exp.len() ==> match #[trigger] exp[k] {
+            EntryIndex::Entry { entry_index, signal_index } => entry_index < width && signal_index < signals.len()
+                && signals[signal_index as int].bits <= 64,
+            EntryIndex::Default { signal_index } => signal_index < signals.len(),
+        }
+}
+
 /// the column bindings of a test: which header columns feed inputs / carry expectations
 ghost struct Cols { inp: Seq<EntryIndex>, exp: Seq<EntryIndex> }
 
@@ -58,21 +74,7 @@ impl Cols {
 }
 
 impl<'a> DataRowIteratorTestData<'a> {
-    /// well-formed index lists for rows of `width` columns (established by with_signals, C11):
-    /// indices in range, input indices point at input-capable signals of width <= 64, expected
-    /// indices at signals of width <= 64
-    spec fn wf_indices(&self, width: int) -> bool {
-        &&& forall|k: int| 0 <= k < self.input_indices@.len() ==> match #[trigger] self.input_indices@[k] {
-                EntryIndex::Entry { entry_index, signal_index } => entry_index < width && signal_index < self.signals@.len()
-                    && sig_is_input(self.signals@[signal_index as int]) && self.signals@[signal_index as int].bits <= 64,
-                EntryIndex::Default { signal_index } => signal_index < self.signals@.len() && sig_is_input(self.signals@[signal_index as int]),
-            }
-        &&& forall|k: int| 0 <= k < self.expected_indices@.len() ==> match #[trigger] self.expected_indices@[k] {
-                EntryIndex::Entry { entry_index, signal_index } => entry_index < width && signal_index < self.signals@.len()
-                    && self.signals@[signal_index as int].bits <= 64,
-                EntryIndex::Default { signal_index } => signal_index < self.signals@.len(),
-            }
-    }
+    spec fn wf_indices(&self, width: int) -> bool { wf_indices_of(self.signals@, self.input_indices@, self.expected_indices@, width) }
 
     spec fn cols(&self) -> Cols { Cols { inp: self.input_indices@, exp: self.expected_indices@ } }
     /// column c is bound to some input-capable signal
